@@ -40,8 +40,9 @@ PROPS = {
               "(not inside a syscall, not power loss).",
               "atomic_inv is a precondition of every mutating shim (= every boundary between two filesystem operations) and a postcondition of every function; "
               "rename requires flushed complete content; non-atomic writers may not target in-scope files"),
-    "C08": _p(["generate", "main"], COMMON_TRUST + " NOT MODELLED: the temporary-file clause (Drop for AsyncTempFile).",
-              "generate_code: Ok implies every readable file completely edited; failure flag reduced and consumed; main maps Err to non-zero"),
+    "C08": _p(["generate", "main"], COMMON_TRUST + " Temporary-file clause: AsyncTempFile::new and the body of Drop::drop are under contract (fresh temp name; drop removes self.path); "
+              "that every AsyncTempFile value is dropped is Rust's ownership semantics (not visible to the weaver); a failed unlink is ignored by the code.",
+              "generate_code: Ok implies every readable file completely edited; failure flag reduced and consumed; main maps Err to non-zero; temp file created fresh and removed on drop"),
     "C11": _p(["find"], COMMON_TRUST + " CLAIMED FOR THE CONFIGURED-MACRO CLAUSE ONLY; comments / string literals are the grammar's COMMENT and string rules (not decided).",
               "macro_of_interest == exact name or module::name; find emits nothing for other names (result == tree_entries)"),
     "C12": _p(["entry", "find", "directive"], "regex crate and str::parse::<u32> are exercised natively on the enumerated set only (BOUNDED, not proved). " + COMMON_TRUST,
